@@ -236,8 +236,40 @@ def dup_case(ctx, k):
             r0 = climon.run(d, ad["argv"] + ["-o", name] + inputs, tag="first", trace=False)
             if r0.rc != 0:
                 return
-        shape = rng.choice(["two-record-outputs", "two-record-outputs", "record-and-text", "pair-same-file", "pair-shared-first-file"])
+        shape = rng.choice(["two-record-outputs", "two-record-outputs", "record-and-text", "pair-same-file", "pair-shared-first-file",
+                            "stdout-and-dash", "expanded-name-shares-one-file"])
         ctx.count("duplicate_path_shape:" + shape)
+        if shape in ("stdout-and-dash", "expanded-name-shares-one-file"):
+            # collisions that only exist after defaults / {name} templates are resolved
+            if shape == "stdout-and-dash":
+                argv = ad["argv"] + ["-m", "12", "--too-short-output", "-", "--json", "rep.json"] + inputs
+                files1 = None
+            else:
+                nm = ad["name"]
+                argv = ad["argv"] + ["-o", "d.{name}.1.fq", "-p", "d.{name}.2.fq", "--untrimmed-output", f"d.{nm}.1.fq",
+                                     "--untrimmed-paired-output", "UNT.2.fq", "--json", "rep.json"] + (["-j", "2"] if rng.random() < 0.3 else []) + inputs + inputs
+                files1 = [f"d.{nm}.1.fq"]
+            run = climon.run(d, argv, tag="dup", trace=False)
+            ctx.count("duplicate_path_runs")
+            ctx.case(("dup", str(argv), shape))
+            case = climon.case_record(argv, d, inputs)
+            case["dup_k"] = k
+            if run.rc != 0:
+                ctx.count("duplicate_path_refused")
+                return
+            n_out = run.json_report()["read_counts"]["output"]
+            if files1 is None:
+                try:
+                    got = len(fastx.parse_fastq(run.out, strict=False))
+                except fastx.ParseError:
+                    got = None
+            else:
+                fo = run.records(files1[0])
+                got = len(fo[1]) if fo and fo[0] != "error" else None
+            if got != n_out:
+                ctx.violation("duplicate-path-clobbered", f"two outputs resolve to one destination ({shape}); exit 0, report says {n_out} reads written, the destination holds "
+                              f"{got} parseable records; argv={argv}", case, facts=dict(shape=shape))
+            return
         if shape == "record-and-text":
             extra = [rng.choice(["--info-file", "--rest-file"]), name]
         elif shape == "pair-same-file":
